@@ -689,16 +689,10 @@ func (vc *VC) havocLoop(li *loopInfo, h *Heap) {
 		old := h.Alloc
 		h.Alloc = vc.declare(vc.fresh("alloc"), "Int")
 		vc.assume("(>= " + h.Alloc + " " + old + ")")
-		// objects created by earlier iterations hold arbitrary contents
-		for s := Sort(0); s < nSorts; s++ {
-			if done["coarse"+sortTag[s]] {
-				continue
-			}
-			// H'[o] for old < o <= alloc' is unconstrained: express by a fresh heap that agrees on o <= old
-			nh := vc.newHeapConst(s)
-			vc.assume(fmt.Sprintf("(forall ((o Int)) (! (=> (<= o %s) (= (select %s o) (select %s o))) :pattern ((select %s o))))", old, nh, h.H[s], nh))
-			h.H[s] = nh
-		}
+		// Objects created by earlier iterations (numbers in (old, alloc']) hold arbitrary
+		// contents. No axiom is needed for that: the heap is unconstrained at object numbers
+		// above the allocation counter of the loop entry (zero-initialisation is only ever
+		// asserted for the specific object a path allocates, which is alloc'+1 or later here).
 	}
 }
 
